@@ -253,6 +253,8 @@ func runC13(c *Ctx) {
 
 	// ---- C13.4 type keys
 	migTypeKeys(c, "C13.4")
+	ruleTypeIdentity(c, "C13.4", migPkg)
+	ruleMigrateRound2(c)
 }
 
 // migTypeKeys: every string-keyed table of internal/migrate whose key is derived from a types.Type uses a
@@ -517,6 +519,8 @@ func runC14(c *Ctx) {
 	} else {
 		c.undecided("C14.6", "mergeResults", "not found")
 	}
+
+	ruleMigrateRound2(c)
 
 	// ---- C14.7 checked-in goldens
 	c14Goldens(c)
